@@ -58,6 +58,16 @@ checks = {
    technique="explicit-state search over graph states of the real store; in every state the complete menu of must-be-refused requests (self edge, root tombstone, missing node type, every cycle-closing edge through live or deleted edges, NaN at every batch position) is executed and followed by a full snapshot comparison and a spy on up.>; crashes/hangs are isolated by re-running the sequence 5x in separate processes",
    text="All graph states reachable by 2 (thorough 3) legal writes over the 9 directed edges among root,A,B,C (live or deleted) and node points; every refused request must answer with an error, leave the complete observable state (points, hashes) unchanged, publish nothing on up.>, and the instance must answer a follow-up write and read.",
    note="Reference graph decides refused/accepted (cycle = parent==child or child is an ancestor of parent through any edge)."),
+ "C06": dict(
+   category="model_checking", design_ref="DESIGN.md §3 C06",
+   technique="exhaustive enumeration of graph configurations (every DAG shape over root+3 nodes with each edge absent/live/tombstoned; root+4 live-only in quick, full in thorough) on the real store; for every node and edge every kind of write is executed and the set of up.* subjects seen by a bus spy is compared with graph reachability computed by a reference model",
+   text="Set equality between observed and expected rebroadcast subjects (missing ancestor = violation, non-ancestor = violation), payload identical to the request, for node points (live edges) and edge points (any edges), incl. up.root.* iff the instance root is reached.",
+   note="Shapes up to isomorphism (fixed topological order). Bus = in-process stand-in (inline)."),
+ "C09": dict(
+   category="model_checking", design_ref="DESIGN.md §3 C09",
+   technique="exhaustive cross product of HTTP methods x node routes x Authorization header kinds x bodies through the real api handler (ServeHTTP) with a bus spy and snapshot comparison; explicit-state search over user-placement histories on the real store for login/listing; real nats-server + real nats.go clients for the bus token",
+   text="Every request with an invalid header must answer 401, cause zero bus messages and leave the store unchanged; every valid header must not answer 401. In every reachable placement state (move, mirror, delete, re-add, deleted groups; depth 5/6) a token is issued iff the user reaches the root through non-deleted edges, the issued token validates, wrong/empty credentials fail, and the node listing stays inside the subtrees of live placements. Bus: connects iff the token is exact.",
+   note="JWT variants (HS384/512, expired, missing claims) are crafted with the instance key read from the database file by the harness. /v1/auth excluded from the 401 oracle."),
 }
 pending_reason = "check not built yet in this round (planned in DESIGN.md §3); not claimed until its harness exists"
 m = {
